@@ -23,12 +23,16 @@ type ConvRule struct {
 	To      string `json:"to"`
 	Hook    int    `json:"hook"`
 	Outcome string `json:"outcome"` // ok exit1 failed-message failed-message-and-objects empty drop extra
+	// Other: the rule is declared for a second CRD (pears.stable.example.com) served by the same hooks
+	Other bool `json:"other,omitempty"`
 }
 
 type ConvRequest struct {
 	From    string `json:"from"` // short version names
 	To      string `json:"to"`
 	Objects int    `json:"objects"`
+	// Other: the request is for the second CRD
+	Other bool `json:"other,omitempty"`
 }
 
 type ConvCase struct {
@@ -80,6 +84,30 @@ func genConv(t *rapid.T) ConvCase {
 	if len(c.Rules) == 0 {
 		addRule(0, 1)
 	}
+	secondCRD := rapid.Bool().Draw(t, "secondCRD")
+	if secondCRD {
+		// the same hooks also serve a second CRD, with rules of its own over the same version names, declared before,
+		// between and after the others
+		for i, m := 0, rapid.IntRange(1, 3).Draw(t, "nother"); i < m; i++ {
+			a := rapid.IntRange(0, n-1).Draw(t, "oa")
+			b := rapid.IntRange(0, n-1).Draw(t, "ob")
+			if a == b {
+				b = (a + 1) % n
+			}
+			r := ConvRule{From: spell(vs[a], "osf"), To: spell(vs[b], "ost"), Hook: rapid.IntRange(0, 2).Draw(t, "ohook"), Outcome: "ok", Other: true}
+			dup := false
+			for _, x := range c.Rules {
+				if x.Other && short(x.From) == short(r.From) && short(x.To) == short(r.To) {
+					dup = true
+				}
+			}
+			if dup {
+				continue
+			}
+			pos := rapid.IntRange(0, len(c.Rules)).Draw(t, "opos")
+			c.Rules = append(c.Rules[:pos], append([]ConvRule{r}, c.Rules[pos:]...)...)
+		}
+	}
 	for i, m := 0, rapid.IntRange(1, 4).Draw(t, "nreq"); i < m; i++ {
 		a := rapid.IntRange(0, n-1).Draw(t, "ra")
 		b := rapid.IntRange(0, n-1).Draw(t, "rb")
@@ -89,7 +117,7 @@ func genConv(t *rapid.T) ConvCase {
 		if a == b {
 			b = (a + 1) % n
 		}
-		c.Requests = append(c.Requests, ConvRequest{From: vs[a], To: vs[b], Objects: rapid.IntRange(1, 3).Draw(t, "nobj")})
+		c.Requests = append(c.Requests, ConvRequest{From: vs[a], To: vs[b], Objects: rapid.IntRange(1, 3).Draw(t, "nobj"), Other: secondCRD && rapid.IntRange(0, 2).Draw(t, "rother") == 0})
 	}
 	return c
 }
@@ -102,6 +130,7 @@ func runConv(c ConvCase) (ev.Info, error) {
 	}
 	defer env.Close()
 	const crd = "crontabs.stable.example.com"
+	const otherCRD = "pears.stable.example.com"
 	perHook := map[int]*hcfg.D{}
 	scripts := map[int][]vh.Rule{}
 	ruleOfBinding := map[string]ConvRule{}
@@ -113,7 +142,11 @@ func runConv(c ConvCase) (ev.Info, error) {
 		}
 		bname := fmt.Sprintf("conv-%d", i)
 		ruleOfBinding[bname] = r
-		d.Conversion = append(d.Conversion, hcfg.Conv{Name: bname, CrdName: crd, Conversions: []hcfg.ConvRule{{From: r.From, To: r.To}}})
+		crdOf := crd
+		if r.Other {
+			crdOf = otherCRD
+		}
+		d.Conversion = append(d.Conversion, hcfg.Conv{Name: bname, CrdName: crdOf, Conversions: []hcfg.ConvRule{{From: r.From, To: r.To}}})
 		var do vh.Behaviour
 		switch r.Outcome {
 		case "ok":
@@ -147,7 +180,7 @@ func runConv(c ConvCase) (ev.Info, error) {
 	router := env.Op.ConversionWebhookManager.Handler.Router
 	var declared []ConvRule
 	declared = append(declared, c.Rules...)
-	reach := func(from, to string) int {
+	reach := func(from, to string, other bool) int {
 		dist := map[string]int{from: 0}
 		q := []string{from}
 		for len(q) > 0 {
@@ -157,7 +190,7 @@ func runConv(c ConvCase) (ev.Info, error) {
 				return dist[v]
 			}
 			for _, r := range declared {
-				if short(r.From) == v {
+				if r.Other == other && short(r.From) == v {
 					if _, ok := dist[short(r.To)]; !ok {
 						dist[short(r.To)] = dist[v] + 1
 						q = append(q, short(r.To))
@@ -169,14 +202,20 @@ func runConv(c ConvCase) (ev.Info, error) {
 	}
 	for ri, rq := range c.Requests {
 		where := fmt.Sprintf("request %d (%s -> %s, %d objects)", ri, rq.From, rq.To, rq.Objects)
+		crdPath, kindName := crd, "CronTab"
+		if rq.Other {
+			crdPath, kindName = otherCRD, "Pear"
+			where += " for the second CRD"
+			info.Labels = append(info.Labels, "request-for-second-crd")
+		}
 		var objs []any
 		for k := 0; k < rq.Objects; k++ {
-			objs = append(objs, map[string]any{"apiVersion": full(rq.From), "kind": "CronTab", "metadata": map[string]any{"name": fmt.Sprintf("ct-%d", k), "namespace": "default"}, "spec": map[string]any{"n": float64(k)}})
+			objs = append(objs, map[string]any{"apiVersion": full(rq.From), "kind": kindName, "metadata": map[string]any{"name": fmt.Sprintf("ct-%d", k), "namespace": "default"}, "spec": map[string]any{"n": float64(k)}})
 		}
 		uid := fmt.Sprintf("conv-uid-%d", ri)
 		body, _ := json.Marshal(map[string]any{"apiVersion": "apiextensions.k8s.io/v1", "kind": "ConversionReview", "request": map[string]any{"uid": uid, "desiredAPIVersion": full(rq.To), "objects": objs}})
 		before, _ := env.Tree.ReadLog()
-		req := httptest.NewRequest(http.MethodPost, "/"+crd, bytes.NewReader(body))
+		req := httptest.NewRequest(http.MethodPost, "/"+crdPath, bytes.NewReader(body))
 		req.Header.Set("Content-Type", "application/json")
 		rec := httptest.NewRecorder()
 		router.ServeHTTP(rec, req)
@@ -222,6 +261,9 @@ func runConv(c ConvCase) (ev.Info, error) {
 			if !ok {
 				return info, fmt.Errorf("%s: hook invoked with unknown binding %q", where, b)
 			}
+			if rule.Other != rq.Other {
+				return info, fmt.Errorf("%s: binding %s was invoked, its rule %s -> %s is declared for the other CRD", where, b, rule.From, rule.To)
+			}
 			if r.Hook != hookName(rule.Hook) {
 				return info, fmt.Errorf("%s: binding %s belongs to %s but %s was executed", where, b, hookName(rule.Hook), r.Hook)
 			}
@@ -230,7 +272,7 @@ func runConv(c ConvCase) (ev.Info, error) {
 			}
 			invs = append(invs, inv{b, rule, arr[0]})
 		}
-		want := reach(rq.From, rq.To)
+		want := reach(rq.From, rq.To, rq.Other)
 		if want >= 2 {
 			info.NonTrivial = true
 		}
@@ -318,7 +360,7 @@ func runConv(c ConvCase) (ev.Info, error) {
 	return info, nil
 }
 
-const ruleConv = "1-3 scripted hooks declaring kubernetesCustomResourceConversion rules over 2-5 versions (short and full spellings, chains plus extra edges; each rule its own binding) assembled by the real operator; 1-4 ConversionReview requests with 1-3 objects through the real HTTP handler; per rule a scripted outcome (convert all objects / exit 1 / failedMessage / failedMessage together with converted objects / empty response / drop an object / write one object too many); oracle: hooks are invoked for a connected chain starting at the source, each receiving the previous output with the declared fromVersion/toVersion; Success with as many objects as requested and the desired apiVersion iff every step succeeded; otherwise Failed, with the hook's failedMessage when it wrote one, and no step after a failed one; no chain -> Failed without invocations; uid echoed. Non-trivial: a request whose shortest chain has >= 2 steps."
+const ruleConv = "1-3 scripted hooks declaring kubernetesCustomResourceConversion rules over 2-5 versions (short and full spellings, chains plus extra edges; each rule its own binding; in half of the cases the same hooks also declare 1-3 rules for a second CRD over the same version names, placed anywhere among the other bindings, and a third of the requests are for that CRD: rules of one CRD never serve the other) assembled by the real operator; 1-4 ConversionReview requests with 1-3 objects through the real HTTP handler; per rule a scripted outcome (convert all objects / exit 1 / failedMessage / failedMessage together with converted objects / empty response / drop an object / write one object too many); oracle: hooks are invoked for a connected chain starting at the source, each receiving the previous output with the declared fromVersion/toVersion; Success with as many objects as requested and the desired apiVersion iff every step succeeded; otherwise Failed, with the hook's failedMessage when it wrote one, and no step after a failed one; no chain -> Failed without invocations; uid echoed. Non-trivial: a request whose shortest chain has >= 2 steps."
 
 func TestConversionE2E(t *testing.T) {
 	ev.Main(t, ev.Spec[ConvCase]{Property: "C15", Part: "e2e", Rule: ruleConv, Gen: genConv, Run: runConv, Journal: true})
